@@ -267,4 +267,9 @@ void run_C11(void) {
   }
   catalogue_sweep(ALL_N, N_ALL_N, th ? 400 : 20, th ? 40 : 4, MON_CANARY);
   for (size_t ni = 0; ni < N_ALL_N; ni++) lifecycle_case(ALL_N[ni], 0);
+  // modules / tables created, used and destroyed in random order, several alive at once
+  for (unsigned rep = 0; rep < (G.thorough ? 240u : 24u); rep++)
+    ops_lifecycle_case("C11 objects", LKM_ALL, (rep % 4) == 3 ? DISP_GENERIC : DISP_NATIVE, 160, 0, rep, "lifecycle_uses");
+  for (unsigned rep = 0; rep < (G.thorough ? 12u : 6u); rep++)
+    ops_lifecycle_case("C11 objects", LKM_BBC | LKM_BAA | LKM_BBB | LKM_REIM_MUL, DISP_NATIVE, 0, (G.thorough && rep < 3) ? 66000 : 300 + 57 * (int)rep, rep, "lifecycle_uses");
 }
